@@ -1,5 +1,10 @@
 package main
 
+import (
+	"sort"
+	"strings"
+)
+
 // Property-specific additional back ends (FRAME checker, lemmas).
 
 var optionParams = map[string]string{"ExpandSpec": "options", "ExpandSchemaWithBasePath": "opts", "ResolveRefWithBase": "options", "ResolveParameterWithBase": "options",
@@ -10,6 +15,9 @@ var rootParams = map[string]string{"ExpandSchema": "root", "ExpandResponseWithRo
 	"ResolvePathItem": "root", "ResolveItemsWithBase": "root", "ResolveItems": "root"}
 
 func runExtras(l *loaded, run *PropRun, prop, tier string) {
+	if tier == "thorough" {
+		runConformance(run)
+	}
 	switch prop {
 	case "C16":
 		onceObligations(l, run)
@@ -45,5 +53,65 @@ func runExtras(l *loaded, run *PropRun, prop, tier string) {
 				frameParamObligations(l, run, k, []string{p}, "options")
 			}
 		}
+	}
+}
+
+// conformance harnesses of the assumed dependency contracts (thorough tier): bounded checks against the real
+// dependencies, run through `go test -overlay`; reported as bounded stand-ins, never as proofs.
+var conformanceTests = map[string][]string{
+	"TestVerifAxiomPathLaws":        {"C02", "C03", "C04", "C05", "C08", "C09", "C10", "C11", "C12", "C18"},
+	"TestVerifAxiomURLRecords":      {"C02", "C03", "C04", "C05", "C08", "C09", "C10", "C11", "C12", "C13", "C18"},
+	"TestVerifAxiomJSONReference":   {"C02", "C03", "C04", "C05", "C09", "C12", "C13", "C18"},
+	"TestVerifAxiomFilepathAbs":     {"C11"},
+	"TestVerifAxiomAtoiItoa":        {"C01", "C05", "C15", "C19"},
+	"TestVerifAxiomJSONStructModel": {"C01", "C06", "C07", "C13", "C14", "C15", "C19"},
+	"TestVerifAxiomConcatJSON":      {"C01", "C06", "C07", "C15", "C19"},
+	"TestVerifAxiomGetForToken":     {"C05", "C15"},
+	"TestVerifAxiomGobRules":        {"C13", "C14"},
+}
+
+var conformanceBounds = map[string]string{
+	"TestVerifAxiomPathLaws":        "path.Clean/Dir/Join/IsAbs laws on every string over {a,b,.,/} up to length 7 (pairs up to length 4)",
+	"TestVerifAxiomURLRecords":      "url.Parse/String record laws on 2808 records (6 schemes x 5 hosts x 9 paths x 3 queries x 4 fragments)",
+	"TestVerifAxiomJSONReference":   "jsonreference.New: record, flags, String, IsCanonical, IsRoot, idempotent canonical form on 17 reference shapes",
+	"TestVerifAxiomFilepathAbs":     "filepath.Abs on every path over {a,.,/} up to length 5",
+	"TestVerifAxiomAtoiItoa":        "strconv.Atoi/Itoa inverse on -1000..100000 and 7 non-canonical spellings",
+	"TestVerifAxiomJSONStructModel": "encoding/json tag-directed model on CommonValidations (6 values): members emitted, decode(encode), null / unknown / ill-typed / duplicate members, string literals, sorted map keys",
+	"TestVerifAxiomConcatJSON":      "swag.ConcatJSON member multiset on 6 blob combinations (duplicates kept, nil blobs skipped)",
+	"TestVerifAxiomGetForToken":     "jsonpointer.GetForToken on 4 props structs: every JSON name, unknown names, typed nil for unset pointers",
+	"TestVerifAxiomGobRules":        "encoding/gob field rules g1-g5 on probe values (zero pointers, empty slices and maps, nested containers, interface payloads)",
+}
+
+func runConformance(run *PropRun) {
+	var names []string
+	for n, props := range conformanceTests {
+		if hasProp(props, run.Prop) {
+			names = append(names, n)
+		}
+	}
+	if len(names) == 0 {
+		return
+	}
+	sort.Strings(names)
+	out := runOverlayVerbose(run.Repo, "/verif/axioms/conformance_test.go", "^("+strings.Join(names, "|")+")$")
+	for _, n := range names {
+		o := &Obligation{Name: "axiom-conformance/" + n, Kind: "bounded", Props: []string{run.Prop}, Solver: "go test (bounded)", Expect: "unsat",
+			Src: "bounded conformance of an assumed dependency contract: " + conformanceBounds[n]}
+		switch {
+		case strings.Contains(out, "--- PASS: "+n+" "):
+			o.Status = "proved"
+			run.Bounded = append(run.Bounded, "bounded (not a proof): "+conformanceBounds[n]+" — passed")
+		case strings.Contains(out, "--- FAIL: "+n+" "):
+			o.Status = "failed"
+			o.Model = out
+			o.replayNote = "an assumed contract on a dependency does not hold on the enumerated inputs: the trusted base is wrong for this dependency version"
+			o.replayConfirmed = true
+			run.Bounded = append(run.Bounded, "bounded: "+conformanceBounds[n]+" — FAILED")
+		default:
+			o.Status = "unknown"
+			o.Model = out
+			run.Bounded = append(run.Bounded, "bounded: "+conformanceBounds[n]+" — did not run")
+		}
+		run.Extra = append(run.Extra, o)
 	}
 }
